@@ -8,8 +8,10 @@
   judge the driver evaluates on the real handler's observations; `handleNotify` is what it replays.
 -/
 import Upnp.Lemmas.C10Step
+set_option linter.unusedSectionVars false
 namespace Upnp.C10
 open Upnp PyDict Upnp.C09
+variable [FloatOracle]
 
 /-- **Status selection** (over the generated ladder): for every combination of present / absent / wrong
     NT, NTS, SID the leading header tests return 400 when NT or NTS is missing, 412 when NT / NTS is wrong
@@ -19,22 +21,37 @@ theorem status_spec (h : NHeaders) :
       (if specStatus h = 200 then none else some (.status (specStatus h)))
     ∧ Gen.C10Notify.backlogStatus = 200 ∧ Gen.C10Notify.doneStatus = 200 := ladder_spec h
 
-/-- the coercer kinds of the data types the correspondence runs use, as extracted from const.py: the
-    integer types go through `int`, `string` through `str`, `boolean` through `s.lower() in ["1","true","yes"]`;
-    date/time types are not modelled (`other`) -/
-theorem type_table_pinned :
-    inKindOf ['u','i','1'] = .int ∧ inKindOf ['u','i','2'] = .int ∧ inKindOf ['u','i','4'] = .int ∧ inKindOf ['i','4'] = .int
-    ∧ inKindOf ['s','t','r','i','n','g'] = .str
-    ∧ inKindOf ['b','o','o','l','e','a','n'] = .lowerIn [['1'], ['t','r','u','e'], ['y','e','s']]
-    ∧ inKindOf ['d','a','t','e','T','i','m','e'] = .other ∧ inKindOf ['t','i','m','e'] = .other := by decide
+/-- **Conversion IS C08's**: what `upnp_value = text` does to a variable's cell is `C08.setUpnpValue` for the
+    variable's row of the generated type table and its strict-mode schema — for every one of the 26 data
+    types, so C08's theorems (accepted spellings, both offset signs, range / allowed-list semantics) are
+    the conversion facts of C10. -/
+theorem conversion_is_c08 (v : Var) (text : Str) (tick : Nat) :
+    ((setUpnpValue v text tick).1.st.stored,
+     (if (setUpnpValue v text tick).2 then Upnp.C08.SetRes.ok else .upnpValueError))
+      = Upnp.C08.setUpnpValue FloatOracle.ops table v.row v.sc v.st.stored text := by
+  unfold setUpnpValue Upnp.C08.setUpnpValue Upnp.C08.setValue
+  rcases convert_total v text with ⟨x, hc⟩ | hc
+  · have hc' : Upnp.C08.coercePython FloatOracle.ops table v.row text = .ok x := hc
+    rw [hc, hc']
+    simp only [validate]
+    split <;> simp_all
+  · have hc' : Upnp.C08.coercePython FloatOracle.ops table v.row text = .error .valueError := hc
+    rw [hc, hc']
+    simp
+
+/-- no conversion exception can leave `handle_notify`: the loop as coded never exits early -/
+theorem no_exception_escapes (s : Svc) (b : Body) (tick : Nat) :
+    notifyChangedE s (changesOf b) tick = (notifyChanged s (changesOf b) tick, none) :=
+  notifyChangedE_eq s _ tick
 
 end Upnp.C10
 
 namespace Upnp.C10
 open Upnp PyDict Upnp.C09
+variable [FloatOracle]
 
 /-- the handler's services are the declared ones (distinct, brace-free variable names per service) -/
-def handlerWF (decls : List (List Decl)) (h : Handler) : Prop :=
+def handlerWF (decls : List (List Var)) (h : Handler) : Prop :=
   h.svcs.map declsOf = decls ∧ ∀ ds ∈ decls, declsWF ds
 
 /-- **C10, one request.**  For every handler state (any routing table, any backlog, any current values),
@@ -44,14 +61,17 @@ def handlerWF (decls : List (List Decl)) (h : Handler) : Prop :=
     `specVar` prescribes, independently of the other properties (valid → stored and stamped; not convertible
     → reads absent, listed; out of range / not allowed → untouched; not named / unknown names → untouched),
     exactly one callback listing exactly the replaced variables; every other service untouched. -/
-theorem c10_step (decls : List (List Decl)) (h : Handler) (hwf : handlerWF decls h) (n : Notify) (tick : Nat) :
+theorem c10_step (decls : List (List Var)) (h : Handler) (hwf : handlerWF decls h) (n : Notify) (tick : Nat) :
     stepOk decls (modelObs h n tick) = true ∧ handlerWF decls (handleNotify h n tick).1 := by
   obtain ⟨hd, hds⟩ := hwf
   have hspec := (status_spec n.hdrs).1
   have hback := (status_spec n.hdrs).2.1
   have hdone := (status_spec n.hdrs).2.2
   subst hd
-  simp only [stepOk, modelObs, svcsOk, Bool.and_eq_true, beq_iff_eq]
+  have e : evDrop = fun p => List.drop p.fst.events.length p.snd.events := rfl
+  have hsame := svcsOkAux_same n.body tick none h.svcs 0 (by intro i hi; cases hi)
+  rw [e] at hsame
+  simp only [stepOk, modelObs, svcsOk, Bool.or_eq_true, Bool.and_eq_true, beq_iff_eq, handleNotify_eq]
   by_cases h200 : specStatus n.hdrs = 200
   · rw [if_pos h200] at hspec
     have hsid : ∃ s, n.hdrs.sid = some s := by
@@ -61,33 +81,30 @@ theorem c10_step (decls : List (List Decl)) (h : Handler) (hwf : handlerWF decls
         simp only [specStatus, hs, Option.isNone_none, Bool.or_true] at h200
         split at h200 <;> simp at h200
     obtain ⟨s, hs⟩ := hsid
-    simp only [handleNotify, hspec, hs, h200, Option.bind_some, beq_self_eq_true, if_true]
+    simp only [hspec, hs, h200, Option.bind_some, beq_self_eq_true, if_true]
     cases hr : get? h.rt s with
     | none =>
       simp only [hback]
-      have e : evDrop = fun p => List.drop p.fst.events.length p.snd.events := rfl
-      have := svcsOkAux_same n.body tick none h.svcs 0 (by intro i hi; cases hi)
-      rw [e] at this
-      exact ⟨⟨trivial, this⟩, rfl, hds⟩
+      exact ⟨Or.inr ⟨trivial, hsame⟩, rfl, hds⟩
     | some i =>
-      simp only [hdone]
-      refine ⟨⟨trivial, ?_⟩, ?_, hds⟩
-      · have := svcsOkAux_modify n.body tick (fun sv => notifyChanged sv (changesOf n.body) tick) h.svcs i 0
-          (fun sv hsv hb => (routedSvcOk_model sv (hds _ (List.mem_map_of_mem hsv)) n.body hb tick).1)
-        have e : evDrop = fun p => List.drop p.fst.events.length p.snd.events := rfl
-        rw [e] at this
-        simpa using this
-      · exact declsOf_modifyAt _ _ _ fun sv _ => notifyChanged_decls sv _ _
+      by_cases hm : n.malformed = true
+      · simp only [hm, if_true]
+        exact ⟨Or.inl trivial, rfl, hds⟩
+      · simp only [hm, Bool.false_eq_true, if_false, hdone]
+        refine ⟨Or.inr ⟨trivial, ?_⟩, ?_, hds⟩
+        · have := svcsOkAux_modify n.body tick (fun sv => notifyChanged sv (changesOf n.body) tick) h.svcs i 0
+            (fun sv hsv hb => (routedSvcOk_model sv
+              ((declsWF_blank sv.vars).mp (hds _ (List.mem_map_of_mem (f := declsOf) hsv))) n.body hb tick).1)
+          rw [e] at this
+          simpa using this
+        · exact declsOf_modifyAt _ _ _ fun sv _ => notifyChanged_decls sv _ _
   · rw [if_neg h200] at hspec
     have hne : (specStatus n.hdrs == 200) = false := by simpa using h200
-    simp only [handleNotify, hspec, hne, h200, Bool.false_eq_true, if_false]
-    have e : evDrop = fun p => List.drop p.fst.events.length p.snd.events := rfl
-    have := svcsOkAux_same n.body tick none h.svcs 0 (by intro i hi; cases hi)
-    rw [e] at this
-    exact ⟨⟨trivial, this⟩, rfl, hds⟩
+    simp only [hspec, hne, h200, Bool.false_eq_true, if_false]
+    exact ⟨Or.inr ⟨trivial, hsame⟩, rfl, hds⟩
 
 /-- **C10, sequences.**  Every sequence of NOTIFY requests, from every well-formed handler state. -/
-theorem c10_history (decls : List (List Decl)) (ns : List Notify) (h : Handler) (hwf : handlerWF decls h) (k : Nat) :
+theorem c10_history (decls : List (List Var)) (ns : List Notify) (h : Handler) (hwf : handlerWF decls h) (k : Nat) :
     ok decls (modelTrace h ns k) = true := by
   induction ns generalizing h k with
   | nil => rfl
@@ -100,26 +117,25 @@ theorem c10_history (decls : List (List Decl)) (ns : List Notify) (h : Handler) 
     names and for a well-formed property set, every variable `v` ends in the state `specVar` prescribes — a
     function of `v`'s own declaration, its own previous state and the text carried for `v` alone — and is
     listed in the (single, last) callback exactly when its stored value was replaced. -/
-theorem apply_complete (s : Svc) (hs : declsWF (declsOf s)) (b : Body) (hb : bodyWF b = true) (tick : Nat)
+theorem apply_complete (s : Svc) (hs : declsWF s.vars) (b : Body) (hb : bodyWF b = true) (tick : Nat)
     (v : Var) (hv : v ∈ s.vars) :
     let s' := notifyChanged s (changesOf b) tick
     ∃ v' listed, v' ∈ s'.vars ∧ v'.decl = v.decl ∧ s'.events = s.events ++ [listed]
-      ∧ (v'.st.stored.read, v'.st.updated, listed.contains v.decl.name)
-          = specVar v.decl b tick v.st.stored.read v.st.updated := by
-  have hnd : (s.vars.map (·.decl.name)).Nodup := by
-    have := hs.1; simpa [declsOf, List.map_map, Function.comp_def] using this
+      ∧ (Stored.read v'.st.stored, v'.st.updated, listed.contains v.decl.name)
+          = specVar v b tick (Stored.read v.st.stored) v.st.updated := by
+  have hnd : (s.vars.map (·.decl.name)).Nodup := hs.1
   have hx : s.names.contains v.decl.name = true := by
     simp only [Svc.names, List.contains_eq_mem, List.mem_map, decide_eq_true_eq]
     exact ⟨v, hv, rfl⟩
   simp only [notifyChanged_spec s hs b hb tick]
   obtain ⟨h1, h2⟩ := varAfter_spec s.names (names_braceFree s hs) b hb tick v hx
-  refine ⟨varAfter (assigns s.names b) tick v, _, List.mem_map_of_mem hv, h1, rfl, ?_⟩
+  refine ⟨varAfter (assigns s.names b) tick v, _, List.mem_map_of_mem hv, h1.1, rfl, ?_⟩
   rw [listedOf_contains _ (assigns_nodup s.names (names_braceFree s hs) b hb) tick s.vars hnd v hv]
   exact h2
 
 /-- **Isolation**: the outcome for a variable does not depend on the other properties — two well-formed
     property sets that carry the same text (or nothing) for `v` leave `v` in the same state. -/
-theorem isolation (s : Svc) (hs : declsWF (declsOf s)) (b1 b2 : Body) (hb1 : bodyWF b1 = true) (hb2 : bodyWF b2 = true)
+theorem isolation (s : Svc) (hs : declsWF s.vars) (b1 b2 : Body) (hb1 : bodyWF b1 = true) (hb2 : bodyWF b2 = true)
     (tick : Nat) (v : Var) (hv : v ∈ s.vars)
     (hc : carried v.decl.name b1 = carried v.decl.name b2) :
     varAfter (assigns s.names b1) tick v = varAfter (assigns s.names b2) tick v := by
@@ -141,60 +157,85 @@ theorem frame (h : Handler) (n : Notify) (tick : Nat) :
         (handleNotify h n tick).1.svcs = h.svcs
         ∨ (handleNotify h n tick).1.svcs = modifyAt h.svcs i fun s => notifyChanged s (changesOf n.body) tick)
     ∧ (n.hdrs.sid.bind (get? h.rt) = none → (handleNotify h n tick).1.svcs = h.svcs) := by
-  unfold handleNotify
+  rw [handleNotify_eq]
   constructor
   · intro i hi
-    split
-    · exact Or.inl rfl
-    · cases hs : n.hdrs.sid with
+    cases hl : runLadder n.hdrs Gen.C10Notify.notifyLadder with
+    | some r => exact Or.inl rfl
+    | none =>
+      cases hs : n.hdrs.sid with
       | none => exact Or.inl rfl
       | some s =>
         simp only [hs, Option.bind_some] at hi
         simp only [hi]
-        exact Or.inr trivial
+        by_cases hm : n.malformed = true
+        · simp only [hm, if_true]; exact Or.inl trivial
+        · simp only [hm, Bool.false_eq_true, if_false]; exact Or.inr trivial
   · intro hnone
-    split
-    · rfl
-    · cases hs : n.hdrs.sid with
+    cases hl : runLadder n.hdrs Gen.C10Notify.notifyLadder with
+    | some r => rfl
+    | none =>
+      cases hs : n.hdrs.sid with
       | none => rfl
       | some s =>
         simp only [hs, Option.bind_some] at hnone
         simp only [hnone]
 
+end Upnp.C10
+
 /-! ### non-vacuity -/
+namespace Upnp.C10.Ex
+open Upnp PyDict Upnp.C09 Upnp.C10
+
+/-- no floats in the example: an oracle that knows none -/
+local instance : FloatOracle := ⟨{ repr := fun _ => [], parse := fun _ => none, le := fun _ _ => false, eq := fun _ _ => false }⟩
 
 def exDecls : List Decl :=
-  [ { name := ['A'], dtype := ['u','i','2'], min := some 0, max := some 100 },
-    { name := ['B'], dtype := ['s','t','r','i','n','g'], allowed := [['x'], ['y']] },
+  [ { name := ['A'], dtype := ['u','i','2'], range := some (some ['0'], some ['1','0','0']) },
+    { name := ['B'], dtype := ['s','t','r','i','n','g'], allowed := some [['x'], ['y']] },
     { name := ['C'], dtype := ['b','o','o','l','e','a','n'] },
-    { name := ['D'], dtype := ['i','4'] } ]
+    { name := ['D'], dtype := ['i','4'] },
+    { name := ['T'], dtype := ['d','a','t','e','T','i','m','e','.','t','z'] } ]
+
+def exVars : List Var := exDecls.filterMap mkVar
+def exVars1 : List Var := [{ name := ['A'], dtype := ['i','4'] }].filterMap mkVar
 
 def exHandler : Handler :=
-  { rt := [(['s','0'], 0), (['s','1'], 1)],
-    svcs := [ { vars := exDecls.map fun d => { decl := d } }, { vars := [{ decl := { name := ['A'], dtype := ['i','4'] } }] } ] }
+  { rt := [(['s','0'], 0), (['s','1'], 1)], svcs := [ { vars := exVars }, { vars := exVars1 } ] }
 
-/-- A=50 valid, B=q not allowed, C=yes valid (namespaced), D=zz not convertible, Zed unknown -/
+/-- A=50 valid, B=q not allowed, C=yes valid (namespaced), D=zz not convertible, Zed unknown,
+    T = a dateTime.tz with a NEGATIVE colon offset -/
 def exNotify : Notify :=
   { hdrs := ⟨some ntEvent, some ntsPropchange, some ['s','0']⟩,
     body := [ ⟨true, [⟨[], ['A'], ['5','0']⟩, ⟨[], ['B'], ['q']⟩]⟩, ⟨false, [⟨[], ['A'], ['7']⟩]⟩,
-              ⟨true, [⟨['u',':','q'], ['C'], ['y','e','s']⟩, ⟨[], ['D'], ['z','z']⟩, ⟨[], ['Z','e','d'], ['1']⟩]⟩ ] }
+              ⟨true, [⟨['u',':','q'], ['C'], ['y','e','s']⟩, ⟨[], ['D'], ['z','z']⟩, ⟨[], ['Z','e','d'], ['1']⟩,
+                      ⟨[], ['T'], "2021-03-04T05:06:07-05:00".toList⟩]⟩ ] }
 
-example : handlerWF [exDecls, [{ name := ['A'], dtype := ['i','4'] }]] exHandler := by
-  refine ⟨by decide, ?_⟩
+example : exVars.length = 5 ∧ exVars1.length = 1 := by decide
+example : handlerWF [exVars, exVars1] exHandler := by
+  refine ⟨by rfl, ?_⟩
   intro ds hds
   simp only [List.mem_cons, List.mem_nil_iff, or_false] at hds
   rcases hds with rfl | rfl <;> exact ⟨by decide, by decide⟩
 example : bodyWF exNotify.body = true := by decide
 example : (modelObs exHandler exNotify 7).res = .status 200 := by decide
-/-- the routed service's callback lists A, C, D (D's stored value was replaced by the error marker) -/
-example : (modelObs exHandler exNotify 7).events = [[[['A'], ['C'], ['D']]], []] := by decide
+/-- the routed service's callback lists A, C, D (its stored value was replaced by the error marker) and T -/
+example : (modelObs exHandler exNotify 7).events = [[[['A'], ['C'], ['D'], ['T']]], []] := by decide
 example : (modelObs exHandler exNotify 7).after =
-    [[(['A'], some (.vint 50), some 7), (['B'], none, none), (['C'], some (.vbool true), some 7), (['D'], none, none)],
-     [(['A'], none, none)]] := by decide
+    [[(['A'], .int 50, some 7), (['B'], .none, none), (['C'], .bool true, some 7), (['D'], .none, none),
+      (['T'], .datetime ⟨2021, 3, 4⟩ ⟨5, 6, 7⟩ (some (-300)), some 7)],
+     [(['A'], .none, none)]] := by decide
 /-- the judge is not trivially true: reporting the other service's `A` as changed is rejected -/
-example : stepOk [exDecls, [{ name := ['A'], dtype := ['i','4'] }]]
+example : stepOk [exVars, exVars1]
     { modelObs exHandler exNotify 7 with after :=
-        [[(['A'], some (.vint 50), some 7), (['B'], none, none), (['C'], some (.vbool true), some 7), (['D'], none, none)],
-         [(['A'], some (.vint 50), some 7)]] } = false := by decide
+        [[(['A'], .int 50, some 7), (['B'], .none, none), (['C'], .bool true, some 7), (['D'], .none, none),
+          (['T'], .datetime ⟨2021, 3, 4⟩ ⟨5, 6, 7⟩ (some (-300)), some 7)],
+         [(['A'], .int 50, some 7)]] } = false := by decide
+/-- … and so is a negative-offset dateTime read back as absent (the regression the lead reported) -/
+example : stepOk [exVars, exVars1]
+    { modelObs exHandler exNotify 7 with after :=
+        [[(['A'], .int 50, some 7), (['B'], .none, none), (['C'], .bool true, some 7), (['D'], .none, none),
+          (['T'], .none, none)],
+         [(['A'], .none, none)]] } = false := by decide
 
-end Upnp.C10
+end Upnp.C10.Ex
